@@ -66,7 +66,7 @@ theorem rep_eq_cycTake (F : List α) (q : Nat) (hf : 0 < F.length) : rep q F = c
   simpa using this
 
 theorem take_succ_getElem (l : List α) (r : Nat) (a : α) (h : l[r]? = some a) : l.take (r + 1) = l.take r ++ [a] := by
-  rw [List.take_succ, h]; rfl
+  rw [List.take_add_one, h]; rfl
 
 theorem take_prefix_rep (F : List α) (q r : Nat) : rep q F ++ F.take r <+: rep (q + 1) F := by
   rw [rep_succ]
